@@ -129,6 +129,8 @@ class Property(Entity):
     def definition(self, d):
         util.check_attr_type(d, str)
         self._h5dataset.set_attr("definition", d)
+        if self.file.auto_update_timestamps:
+            self.force_updated_at()
 
     @property
     def unit(self):
@@ -144,6 +146,8 @@ class Property(Entity):
 
         util.check_attr_type(new, str)
         self._h5dataset.set_attr("unit", new)
+        if self.file.auto_update_timestamps:
+            self.force_updated_at()
 
     @property
     def uncertainty(self):
@@ -160,6 +164,8 @@ class Property(Entity):
         util.check_attr_type(uncertainty, Number)
         uncertainty = float(uncertainty) if uncertainty is not None else None
         self._h5dataset.set_attr("uncertainty", uncertainty)
+        if self.file.auto_update_timestamps:
+            self.force_updated_at()
 
     @property
     def reference(self):
@@ -175,6 +181,8 @@ class Property(Entity):
     def reference(self, ref):
         util.check_attr_type(ref, str)
         self._h5dataset.set_attr("reference", ref)
+        if self.file.auto_update_timestamps:
+            self.force_updated_at()
 
     @property
     def dependency(self):
@@ -184,6 +192,8 @@ class Property(Entity):
     def dependency(self, dep):
         util.check_attr_type(dep, str)
         self._h5dataset.set_attr("dependency", dep)
+        if self.file.auto_update_timestamps:
+            self.force_updated_at()
 
     @property
     def dependency_value(self):
@@ -193,6 +203,8 @@ class Property(Entity):
     def dependency_value(self, depval):
         util.check_attr_type(depval, str)
         self._h5dataset.set_attr("dependency_value", depval)
+        if self.file.auto_update_timestamps:
+            self.force_updated_at()
 
     @property
     def value_origin(self):
@@ -202,6 +214,8 @@ class Property(Entity):
     def value_origin(self, origin):
         util.check_attr_type(origin, str)
         self._h5dataset.set_attr("value_origin", origin)
+        if self.file.auto_update_timestamps:
+            self.force_updated_at()
 
     @property
     def odml_type(self):
@@ -228,6 +242,8 @@ class Property(Entity):
                             "with property values".format(new_type))
 
         self._h5dataset.set_attr("odml_type", str(new_type))
+        if self.file.auto_update_timestamps:
+            self.force_updated_at()
 
     def _read_old_values(self):
         val = self._h5dataset.dataset[:]
@@ -278,6 +294,8 @@ class Property(Entity):
         self._h5dataset.shape = np.shape(vals)
         data = np.array(vals, dtype=vtype)
         self._h5dataset.write_data(data)
+        if self.file.auto_update_timestamps:
+            self.force_updated_at()
 
     def extend_values(self, data):
         """
@@ -292,6 +310,8 @@ class Property(Entity):
         dlen = len(arr)
         dataset.shape = (src_len + dlen,)
         dataset.write_data(arr, slc=np.s_[src_len: src_len + dlen])
+        if self.file.auto_update_timestamps:
+            self.force_updated_at()
 
     def _check_new_value_types(self, data):
         if isinstance(data, (Sequence, Iterable)) and not isinstance(data, str):
@@ -336,6 +356,8 @@ class Property(Entity):
 
     def delete_values(self):
         self._h5dataset.shape = (0,)
+        if self.file.auto_update_timestamps:
+            self.force_updated_at()
 
     @staticmethod
     def _make_h5_dtype(valued_type):
